@@ -74,7 +74,9 @@ pub fn matrices(rec: &mut Recorder, rng: &mut Rng, thorough: bool) {
     let widths: Vec<usize> = vec![1, 2, 3, 7, 8, 31, 62, 63, 64, 65, 66, 100, 126, 127, 128, 129, 130, 140, 191, 192, 193, 200, 257, 270];
     let n = if thorough { 1500 } else { 220 };
     for it in 0..n {
-        let w = if it < 2 * widths.len() { widths[it % widths.len()] } else if rng.chance(1, 2) { *rng.pick(&widths) } else { rng.range(1, if thorough { 300 } else { 140 }) as usize };
+        let mut w = if it < 2 * widths.len() { widths[it % widths.len()] } else if rng.chance(1, 2) { *rng.pick(&widths) } else { rng.range(1, if thorough { 300 } else { 140 }) as usize };
+        // a few very wide matrices (rows of 8 and more 64-bit words: block-wise row kernels)
+        if it % (if thorough { 25 } else { 55 }) == 7 { w = *rng.pick(&[449usize, 511, 512, 513, 576, 577, 640, 1025]); rec.count("very_wide_matrices"); }
         let h = w + match rng.below(4) { 0 => 0, 1 => 1, _ => rng.below(20) as usize };
         // hints just below / at a multiple of 64 (with sparse columns left to freeze): the dense tail then
         // grows across a word boundary (64->65, 128->129, 192->193, 256->257 columns) and is re-spaced
